@@ -314,7 +314,7 @@ func readRules(c *Ctx) {
 						return []St{s.Set("ce", v)}
 					}
 				}
-				if full == "io.Copy" && len(call.Args) == 2 && exprStr(call.Args[0]) == "w" && s.Get("src") != "" {
+				if full == "io.Copy" && len(call.Args) == 2 && strings.HasSuffix(info.TypeOf(call.Args[0]).String(), "net/http.ResponseWriter") && s.Get("src") != "" {
 					ncopy++
 					ok := (s.Get("src") == "zstd") == (s.Get("ce") == "zstd")
 					R.Check(ok, "R02c", c.Cfg+"CacheHandler:GET:content-encoding", c.P.Pos(call.Pos()), "Content-Encoding: zstd is set exactly when the body comes from GetZstd", "body source "+s.Get("src")+" is sent with Content-Encoding "+s.Get("ce"), x.Trace()...)
@@ -322,6 +322,7 @@ func readRules(c *Ctx) {
 				return []St{s}
 			},
 		}, "server.parseRequestURL")
+		base.InlineOwnHelpers()
 		base.H.Call = errFork(base)
 		x := NewExec(c.P.FlowOf(fi), base)
 		x.Run(newSt())
@@ -649,8 +650,8 @@ func depRules(c *Ctx) {
 			if k == "disk.(Cache).Get" || k == "disk.(Cache).Contains" || k == "disk.(Cache).GetZstd" {
 				n++
 				kindAC := false
-				for kk, v := range s.m {
-					if strings.HasPrefix(kk, "c:kind@") && v == "0" {
+				if k != "disk.(Cache).GetZstd" && len(call.Args) > 1 {
+					if kt, ok := b5.Term(x, call.Args[1], s); ok && (s.Get("c:"+kt) == "0" || kt == "#0") {
 						kindAC = true
 					}
 				}
@@ -659,6 +660,7 @@ func depRules(c *Ctx) {
 			}
 			return []St{s}
 		}}, "server.parseRequestURL")
+		b5.InlineOwnHelpers()
 		b5.H.Call = errFork(b5)
 		x5 := NewExec(c.P.FlowOf(fh), b5)
 		x5.Run(newSt())
